@@ -28,6 +28,9 @@ MARKER_PROPS = {
     "VF:slice.": ["C01", "C02"],
     "VF:slice.forms.": ["C20"],
     "VF:slice_opt.": ["C01", "C02", "C03", "C05"],
+    "VF:slice_opt.get": ["C01", "C02", "C03", "C05", "C13"],
+    "VF:slice_opt.accessors_disagree": ["C13"],
+    "VF:dense_owned.": ["C12", "C01", "C20"],
     "VF:slice_opt.forms.": ["C20"],
     "VF:columns_coded.": ["C10"],
     "VF:columns_coded.clear": ["C08"],
@@ -280,7 +283,7 @@ def run(pid, cfg, tier, seed, repo):
             continue
         if r["found"]:
             f = r["found"]
-            rp = cex.replay(h["name"], f["inputs"])
+            rp = cex.replay(h["name"], f["inputs"], env=dict(VK_IGNORE="|".join(marker_filters(pid)[0]), VK_ONLY="|".join(marker_filters(pid)[1])))
             out["violations"].append(dict(key=f"bounded.{h['name']}#{f['message'][:80]}", kind="input", harness=h["name"], inputs=f["inputs"], native=rp,
                                           text=f"bounded harness {h['name']} ({h['bound']}) violated on input {f['inputs']} [{f['profile']} profile]: {f['message']}",
                                           msg=f["message"]))
